@@ -132,3 +132,22 @@ fn text_of(op: usize) -> &'static str {
 #[test] fn w__execute_modify__any() { w__update_sequences__agree_with_sparql_update_semantics(); }
 #[test] fn w__execute_update_request__any() { w__update_sequences__agree_with_sparql_update_semantics(); }
 #[test] fn w__execute_sparql_update__any() { w__update_sequences__agree_with_sparql_update_semantics(); }
+
+/// C03: template blank nodes are fresh per solution, shared within one solution
+#[test] fn w__instantiate_templates__blank_nodes_fresh_per_solution() {
+    for n in 1..=3usize {
+        let mut db = SparqlDatabase::new();
+        let mut seed = String::from("INSERT DATA { ");
+        for i in 0..n { seed.push_str(&format!("<http://e/s{}> <http://e/p> <http://e/o{}> . ", i, i)); }
+        seed.push('}');
+        execute_sparql_update(&seed, &mut db).expect("seed");
+        let r = execute_sparql_update("INSERT { _:b <http://e/about> ?s . _:b <http://e/val> ?o } WHERE { ?s <http://e/p> ?o }", &mut db).expect("update");
+        let (quads, _) = dataset(&db);
+        let about: Vec<&Q> = quads.iter().filter(|q| q.1 == "http://e/about").collect();
+        let val: Vec<&Q> = quads.iter().filter(|q| q.1 == "http://e/val").collect();
+        let nodes: BTreeSet<&String> = about.iter().map(|q| &q.0).collect();
+        assert!(about.len() == n && val.len() == n && nodes.len() == n, "{} solutions: the template INSERT {{ _:b about ?s . _:b val ?o }} must create {} distinct blank nodes (one per solution), got {} 'about' quads, {} 'val' quads, {} distinct nodes: {:?}", n, n, about.len(), val.len(), nodes.len(), quads);
+        for a in &about { assert!(val.iter().any(|v| v.0 == a.0), "the two template triples of one solution must share their blank node"); }
+        assert!(r.inserted_quads == 2 * n, "{} solutions: reported {} inserted quads, expected {}", n, r.inserted_quads, 2 * n);
+    }
+}
